@@ -322,13 +322,13 @@ func Run(c Case) error {
 			return nil
 		}
 		perr := fmt.Errorf("library panicked: %v\ntype %s\nopts %s", p, sig, optSig)
-		if popsBelowEntry(&c) {
-			return rt.Known("user-code-pops-below-entry", perr)
-		}
 		if _, d1 := effective(c.EncOpts); d1 {
 			if _, d2 := effective(all); !d2 && len(scripts(&c)) > 0 && c.Entry >= 3 && strings.Contains(p.Stack, "objectNamespaceStack.Last") {
 				return rt.Known("dupcheck-enabled-midobject-user-writes-name", perr)
 			}
+		}
+		if popsBelowEntry(&c) {
+			return rt.Known("user-code-pops-below-entry", perr)
 		}
 		return perr
 	}
